@@ -1045,7 +1045,7 @@ open Base.Multi Base.LineStruct in
 theorem bfix_multiStruct_codeSeq (fold : Str → Str) (params action : Base.KV) (old new : List Tok)
     (h : Base.fixByOwner (MOwner.name .multiStruct) params action old = some (.ok new)) :
     ∃ ty f act, dget action "type" = .ok ty ∧ msFnOf ty = .ok f ∧ dget action "action" = .ok act ∧
-      match msKind f act with
+      match msKind f act old with
       | .insert | .noop | .join => codeSeq fold new = codeSeq fold old
       | .collapse => 2 ≤ old.length → (codeSeq fold new = codeSeq fold old ↔ codeSeq fold (middle old) = [])
       | .moveComment => ∃ t0 M D, LayoutOnly old (t0 :: M ++ D) ∧ new = t0 :: D ++ mkCr Base.lineCls :: M ∧
@@ -1053,7 +1053,7 @@ theorem bfix_multiStruct_codeSeq (fold : Str → Str) (params action : Base.KV) 
   have hm := run_fixM .multiStruct params action old new (mowner_all _) h
   obtain ⟨ty, f, act, h1, h2, h3, he⟩ := fixMS_effect _ _ action old new hm
   refine ⟨ty, f, act, h1, h2, h3, ?_⟩
-  cases hk : msKind f act <;> simp only [hk] at he ⊢
+  cases hk : msKind f act old <;> simp only [hk] at he ⊢
   · exact (he.1.codeSeq fold).symm
   · intro hlen; exact collapse_codeSeq_iff fold _ old new he hlen
   · obtain ⟨t0, M, D, hl, hn⟩ := he
